@@ -418,18 +418,40 @@ class RegexKeyAdequacy(Lemma):
         return obs
 
     def replay(self, model):
-        """native witness: a component whose name holds a metacharacter stays cached after invalidation"""
-        conc = flowir_mod.FlowIRConcrete({'components': [{'stage': 0, 'name': 'a+b', 'command': {'executable': 'ls'}, 'variables': {'myvar': 'old'}}]},
-                                         FlowIR.LabelDefault, {})
-        before = conc.get_component_configuration((0, 'a+b'), include_default=True)
-        conc.set_component_variable((0, 'a+b'), 'myvar', 'new')
-        after = conc.get_component_configuration((0, 'a+b'), include_default=True)
-        scratch = flowir_mod.FlowIRConcrete(conc.raw(), FlowIR.LabelDefault, {}).get_component_configuration(
-            (0, 'a+b'), include_default=True)
-        stale = after != scratch
-        return ('confirmed' if stale else 'contradicted'), {"component": "a+b", "cached": after.get('variables'),
-                                                            "from_scratch": scratch.get('variables'),
-                                                            "sites": getattr(self, 'detail', None)}
+        """native witnesses: a component whose name holds a metacharacter (or that is cached for another platform) stays
+        cached after an update through one of the public routes"""
+        import copy
+        tried = []
+        for route in ('set_component_variable', 'update_component', 'set_component_option'):
+            for name, platform in (('a+b', FlowIR.LabelDefault), ('comp', 'plat')):
+                doc = {'components': [{'stage': 0, 'name': name, 'command': {'executable': 'ls'}, 'variables': {'myvar': 'old'}}],
+                       'platforms': [FlowIR.LabelDefault, 'plat']}
+                try:
+                    conc = flowir_mod.FlowIRConcrete(copy.deepcopy(doc), FlowIR.LabelDefault, {})
+                    conc.get_component_configuration((0, name), platform=platform, include_default=True)
+                    if route == 'set_component_variable':
+                        conc.set_component_variable((0, name), 'myvar', 'new')
+                    elif route == 'update_component':
+                        comp = conc.get_component((0, name))
+                        comp['variables']['myvar'] = 'new'
+                        conc.update_component((0, name), comp)
+                    else:
+                        conc.set_component_option((0, name), '#command.arguments', 'new')
+                    after = conc.get_component_configuration((0, name), platform=platform, include_default=True)
+                    scratch = flowir_mod.FlowIRConcrete(conc.raw(), FlowIR.LabelDefault, {}).get_component_configuration(
+                        (0, name), platform=platform, include_default=True)
+                except Exception as err:
+                    tried.append({"route": route, "component": name, "platform": platform, "error": "%s: %s" % (type(err).__name__, err)})
+                    continue
+                tried.append({"route": route, "component": name, "platform": platform, "stale": after != scratch})
+                if after != scratch:
+                    return 'confirmed', {"route": route, "component": name, "platform": platform,
+                                         "cached": {k: after.get(k) for k in ('variables', 'command')},
+                                         "from_scratch": {k: scratch.get(k) for k in ('variables', 'command')},
+                                         "sites": getattr(self, 'detail', None)}
+        # the lemma is about the TEXT of the patterns; that no public route shows a stale entry does not contradict it
+        return 'no-replay', {"reason": "no stale cache entry through the public routes tried", "tried": tried,
+                             "sites": getattr(self, 'detail', None)}
 
 
 TARGETS = MUTATORS + [ConfSetOption(), ConfRemoveOption(), CacheProtocol(), CacheGet(), CacheInvalidateRe(), CacheClear()]
